@@ -6,7 +6,7 @@
    Two models meet here: Model/Cache.v (frames with byte lengths; imported last, so `log`, `frame`, `valid_log`, `fseq`
    mean its versions) and Model/Compile.v (the context compiler's frames; written `Compile.log`, `Compile.valid_log`). *)
 From RipV Require Import Base.Prelude Model.Compile Proofs.CompileProofs Model.CacheCompile Proofs.CacheCompileProofs
-  Gen.CompileConsts Proofs.CacheCompileGenProofs.
+  Gen.CompileConsts Proofs.CacheCompileGenProofs Model.SeekIndex Proofs.SeekIndexProofs.
 From RipV Require Import Model.TailLoop Model.Cache Proofs.TailLoopProofs Proofs.CacheProofs
   Gen.TailLoops Proofs.CacheGenProofs.
 
@@ -520,3 +520,71 @@ Theorem c04_cut_points_rejected_index_refuted :
   /\ map cp_to_seq (snd (cut_points_truth wlog7 2 4)) = [7; 3].
 Proof. exact rejected_index_unfixed. Qed.
 Print Assumptions c04_cut_points_rejected_index_refuted.
+
+(* ---------------------------------------------------------------- the seek index and the full-sidecar window read (Model/SeekIndex.v) *)
+(* The compile input's producer when the messages+runs sidecar cannot be used: window_recent_messages_v1_from_seq over the
+   full sidecar, which looks up "the greatest seek entry with seq <= target" twice (boundary_pos_for_seq_v1, the first frame
+   of the window in window_recent_messages_v1_from_cut_v1).  Offsets in lines; the backward header scan taken to its
+   fixpoint.  On an intact full sidecar, FOR EVERY STRIDE, limit and cut — whatever the position of the cut and of the
+   window's first frame relative to the entries — the window read is the index-free specification: the messages and
+   run_ended frames from the limit-th message at or below the cut (or the start of the thread) up to the cut. *)
+Theorem c04_seek_window_transparent :
+  forall (stride : N) (limit : nat) (l : Compile.log) (from : N),
+  Compile.valid_log l = true ->
+  seek_window best_offset stride limit l from = window_spec limit l from.
+Proof. exact seek_window_correct. Qed.
+Print Assumptions c04_seek_window_transparent.
+
+(* what the window read needs of the lookup: it never starts beyond its target (any such lookup gives the same window) *)
+Theorem c04_seek_window_any_sound_lookup :
+  forall (look : list SeekIndex.entry -> N -> N) (stride : N) (limit : nat) (l : Compile.log) (from : N),
+  Compile.valid_log l = true ->
+  (forall t, look (seek_index stride l) t <= t) ->
+  seek_window look stride limit l from = window_spec limit l from.
+Proof. exact seek_window_sound. Qed.
+Print Assumptions c04_seek_window_any_sound_lookup.
+
+(* the lookup of the code on the index of an intact sidecar: the entry it returns is in the index, at or below the target,
+   points at the frame of its seq, and every entry at or below the target is at or below it (the next entry is beyond the
+   target); no entry at or below the target => offset 0 *)
+Theorem c04_seek_lookup_greatest_entry_at_or_below :
+  forall (stride : N) (l : Compile.log) (t : N),
+  Compile.valid_log l = true ->
+  match best_entry (seek_index stride l) t None with
+  | Some e => In e (seek_index stride l) /\ fst e <= t /\ snd e = fst e
+              /\ forall e', In e' (seek_index stride l) -> fst e' <= t -> fst e' <= fst e
+  | None => forall e', In e' (seek_index stride l) -> t < fst e'
+  end.
+Proof. exact seek_lookup_spec. Qed.
+Print Assumptions c04_seek_lookup_greatest_entry_at_or_below.
+
+(* every offset class relative to the stride on a concrete thread (stride 4, 11 messages, entries 0 / 4 / 8, limit 2):
+   cut = entry - 1, entry, entry + 1, mid-stride, last entry - 1, last entry, last entry + 1, the tail *)
+Example c04_seek_window_positions :
+  seek_index 4 sw_thread = [(0, 0); (4, 4); (8, 8)]
+  /\ map (fun from => seqs (seek_window best_offset 4 2 sw_thread from)) [3; 4; 5; 6; 7; 8; 9; 10]
+     = [[2; 3]; [3; 4]; [4; 5]; [5; 6]; [6; 7]; [7; 8]; [8; 9]; [9; 10]]
+  /\ map (fun from => seqs (window_spec 2 sw_thread from)) [3; 4; 5; 6; 7; 8; 9; 10]
+     = [[2; 3]; [3; 4]; [4; 5]; [5; 6]; [6; 7]; [7; 8]; [8; 9]; [9; 10]].
+Proof. exact seek_window_positions. Qed.
+Print Assumptions c04_seek_window_positions.
+
+(* the lookup "first entry with seq >= target, else the last" (entries.partition_point(|e| e.seq < target); seed C04-11):
+   one entry too far for every target that is not itself an entry and lies below the last one.  The window comes back
+   EMPTY for the cuts 3, 6, 7 (the caller takes Ok(Some(window)) and never reaches the replay), short of its older message
+   for 4, 5, 8, and right only where the whole window lies beyond the last entry *)
+Theorem c04_seek_window_next_entry_refuted :
+  Compile.valid_log sw_thread = true
+  /\ best_offset (seek_index 4 sw_thread) 6 = 4 /\ best_offset_next (seek_index 4 sw_thread) 6 = 8
+  /\ seqs (seek_window best_offset_next 4 2 sw_thread 6) = []
+  /\ seqs (window_spec 2 sw_thread 6) = [5; 6]
+  /\ map (fun from => seqs (seek_window best_offset_next 4 2 sw_thread from)) [3; 4; 5; 7; 8; 9; 10]
+     = [[]; [4]; [4; 5]; []; [8]; [8; 9]; [9; 10]].
+Proof. exact seek_window_next_entry_refuted. Qed.
+Print Assumptions c04_seek_window_next_entry_refuted.
+
+Theorem c04_seek_window_next_entry_exists_refuted :
+  exists (stride : N) (limit : nat) (l : Compile.log) (from : N), Compile.valid_log l = true
+    /\ seek_window best_offset_next stride limit l from <> window_spec limit l from.
+Proof. exact seek_window_next_entry_exists. Qed.
+Print Assumptions c04_seek_window_next_entry_exists_refuted.
